@@ -22,6 +22,18 @@ def canon_row(r):
         return [str(x) for x in r]
 
 
+def nonull(x):
+    """TLC's Json module cannot read null: a null recorded from the code (e.g. a field csv.DictReader could not fill from a
+    damaged row) becomes a string that equals nothing the specification expects -- a verdict instead of a machinery failure."""
+    if x is None:
+        return "<null>"
+    if isinstance(x, dict):
+        return {k: nonull(v) for k, v in x.items()}
+    if isinstance(x, (list, tuple)):
+        return [nonull(v) for v in x]
+    return x
+
+
 def encode_event(e, d="out"):
     k = e["e"]
     if e.get("dir", d) != d:
@@ -30,6 +42,8 @@ def encode_event(e, d="out"):
         fl = e.get("flags", [])
         return {"e": k, "pid": e["pid"], "k": e["k"], "nested": e["nested"], "b": e["b"],
                 "fl": {"failed": "--no-failed" not in fl, "missing": "--no-missing" not in fl, "successful": "--successful" in fl}}
+    if k == "regroup":
+        return {"e": k, "groups": e["groups"]}
     if k == "exit":
         return {"e": k, "pid": e["pid"], "k": e["k"], "code": e["code"], "exc": e["exc"], "clock": bool(e.get("clock", False))}
     if k == "cfgbatch":
@@ -118,7 +132,7 @@ def check_traces(traces, shards=8, keep=False, module="MonTrace", encoder=None):
     for k, part in enumerate(parts):
         fd, path = tempfile.mkstemp(prefix=f"traces{k}_", suffix=".json", dir=OUT)
         with os.fdopen(fd, "w") as f:
-            json.dump([enc[i] for i in part], f)
+            json.dump(nonull([enc[i] for i in part]), f)
         files.append(path)
 
     def one(path):
